@@ -32,6 +32,9 @@ type Result struct {
 	MaxDepth  int
 }
 
+// CutV4Names applies the C06 normalisation (v4 names cut to 63/127) inside embedded DHCPv4 messages.
+var CutV4Names bool
+
 type dec struct {
 	unspec    string
 	lenFields []int
@@ -372,6 +375,14 @@ func (d *dec) option(code int, v []byte, base int, depth int) *tree.Node {
 	case 87:
 		p, ok, why := ref4.Decode(v)
 		need(ok, "dhcpv4msg-"+why)
+		if CutV4Names {
+			if len(p.SName) > 63 {
+				p.SName = p.SName[:63]
+			}
+			if len(p.File) > 127 {
+				p.File = p.File[:127]
+			}
+		}
 		return tree.N("dhcpv4msg").S("p4", p.Canon())
 	case 97:
 		return tree.N("4rd").K(sub(v, 0)...)
